@@ -183,4 +183,9 @@ pub trait Engine {
     fn exec(&mut self, line: &str, mon: &mut Monitor) -> String;
     /// next op line of the current generated case; None ends the case
     fn next_op(&mut self, rng: &mut Rng, step: u64) -> Option<String>;
+    /// the op line as written to the ops file after `exec`: engines whose model takes answers of
+    /// un-modelled contracts as parameters append them here (`@k=v` tokens recorded from the real run)
+    fn recorded(&mut self, line: &str) -> String {
+        line.to_string()
+    }
 }
